@@ -329,9 +329,10 @@ def run(ctx):
         sg = [np.asarray(calc_file_signature(KS, sf)) for sf in seqfiles(pf)]
         assert len({x.tobytes() for x in sg}) == nmany
         for conc in ('threads', 'processes'):
-            rr = mode_record(pf, set(), conc, None, sg)
-            rr['sizes'] = 'many'
-            mrecs.append(rr)
+            for workers in (None, 1, 2):            # many more files than workers as well
+                rr = mode_record(pf, set(), conc, workers, sg)
+                rr['sizes'] = 'many'
+                mrecs.append(rr)
         # histories: a call that fails part-way through a file, then further calls on the SAME long-lived executor / thread.
         # every later successful call must still return each file's own signature
         import gzip as _gz
